@@ -88,6 +88,10 @@ fn one(entry: &str) -> Option<Vec<u8>> {
         "stack_gen8" => StackByteArray::<8>::gen().to_vec(),
         "stack_gen5" => StackByteArray::<5>::gen().to_vec(),
         "array_gen7" => <[u8; 7] as NewByteArray<7>>::gen().to_vec(),
+        "array_gen257" => <[u8; 257] as NewByteArray<257>>::gen().to_vec(),
+        "array_gen1000" => <[u8; 1000] as NewByteArray<1000>>::gen().to_vec(),
+        "stack_gen300" => StackByteArray::<300>::gen().to_vec(),
+        "vec_gen513" => <Vec<u8> as NewByteArray<513>>::gen(),
         "keypair_gen" => {
             let k = dryoc::keypair::StackKeyPair::gen();
             [k.secret_key.to_vec(), k.public_key.to_vec()].concat()
